@@ -113,12 +113,21 @@ func (i *interpreter) formatOperand(fr *frame, spec string, verb byte, arg value
 				t = i.st.Resize(t, 32, true)
 			}
 			return normStr(i.encodeRune(i.fromTerm(t, kindInt32)))
-		case verb == 'x' && (spec == "02" || spec == "") && d.t.S.W == 8:
-			hi := i.hexDigit(i.st.BVBin("bvlshr", d.t, i.st.Const(smt.BV(8), 4)))
-			lo := i.hexDigit(i.st.BVBin("bvand", d.t, i.st.Const(smt.BV(8), 15)))
+		case verb == 'x' && (spec == "02" || spec == ""):
+			t8 := d.t
+			if t8.S.W != 8 {
+				// wider integers: only when the path condition confines the value to one byte
+				inByte := i.st.BVCmp("bvult", t8, i.st.Const(t8.S, 256))
+				if !i.decide(inByte) {
+					panic(unsupported("formatting a symbolic integer >= 256 with %x"))
+				}
+				t8 = i.st.Extract(7, 0, t8)
+			}
+			hi := i.hexDigit(i.st.BVBin("bvlshr", t8, i.st.Const(smt.BV(8), 4)))
+			lo := i.hexDigit(i.st.BVBin("bvand", t8, i.st.Const(smt.BV(8), 15)))
 			if spec == "" {
 				// no padding: one digit when the value is < 16
-				if i.decide(i.st.BVCmp("bvult", d.t, i.st.Const(smt.BV(8), 16))) {
+				if i.decide(i.st.BVCmp("bvult", t8, i.st.Const(smt.BV(8), 16))) {
 					return normStr([]value{lo})
 				}
 			}
